@@ -948,7 +948,12 @@ class Stage:
         # Own terms plus those of the sub-stages: the cost that is minimised
         r = self._objective
         for s in self._stages:
-            r = r + s.objective
+            # Each sub-stage evaluates its own part (stages created from one template share their symbols)
+            o = s.objective
+            cached = getattr(s, '_objective_value', None)
+            if cached is None or not is_equal(MX(cached[0]), MX(o)):
+                cached = s._objective_value = (o, s._create_placeholder_expr(o, 'value'))
+            r = r + cached[1]
         return r
 
     @property
@@ -1746,11 +1751,7 @@ class Stage:
             Arbitrary expression containing no signals (states, controls) ...
         """
         placeholders = self.master.placeholders_transcribed
-        expr = self._method.eval(self, expr)
-        # Global variables and parameters of sub-stages (e.g. inside the objective of the whole problem)
-        for s in self.iter_stages():
-            expr = s._method.eval(s, expr)
-        return placeholders(expr)
+        return placeholders(self._method.eval(self, expr))
 
     @transcribed
     def initial_value(self, expr):
